@@ -292,6 +292,14 @@ def do_call(desc, root, ids_s, ids_d, opts):
         return None
     except Exception as e:       # noqa: BLE001
         return exn_name(e)
+    finally:
+        # ThreadPool.terminate() does not join its worker threads: after an exception they may still be
+        # synchronising other jobs.  Observe the state only once they are done.
+        import threading
+
+        for t in threading.enumerate():
+            if t is not threading.current_thread() and t is not threading.main_thread():
+                t.join(timeout=10)
 
 
 def calc(sp):
